@@ -355,6 +355,105 @@ theorem mutant_with_attached_id_ignored (H : Nat → Id) (cw : Perm → Bool) (k
   simp [addRaw, filterNew, hold]
 
 
+/-! ## all histories: the invariant of a replica's tree -/
+
+/-- one delivered batch preserves "everything attached is authentic, storage = attached" -/
+theorem add_preserves_allAuthentic (H : Nat → Id) (cw : Perm → Bool) (hcw : cw 0 = false) (keep : Bool)
+    (l : Log) (hnd : (l.map (·.id)).Nodup) (t : TreeSt) (batch : List Raw)
+    (hinv : AllAuthentic H cw l t) : AllAuthentic H cw l (addRaw H cw keep l t batch).2.2 := by
+  rcases addRaw_shape H cw keep l t batch with ⟨ht, _⟩ | ⟨hok, hroot, cs, hatt, hadd, hst⟩
+  · rw [ht]; exact hinv
+  · have hacc := accept_implies_authentic H cw hcw keep l hnd t batch _ _
+      (show addRaw H cw keep l t batch = (.ok, (addRaw H cw keep l t batch).2.1, (addRaw H cw keep l t batch).2.2) by
+        rw [← hok])
+    refine ⟨?_, ?_⟩
+    · intro c hc
+      rcases hacc.1 c hc with hold | ⟨raw, _, hauth⟩
+      · obtain ⟨raw, hr⟩ := hinv.1 c hold
+        refine ⟨raw, ?_⟩
+        rw [hroot, hatt]
+        have := authentic_mono hr cs []
+        simpa using this
+      · exact ⟨raw, by rw [hroot]; exact hauth⟩
+    · rw [hst, hinv.2, hatt, hadd]; simp
+
+/-- **every reachable state.** Start from a tree opened over a root (`CreateStorage` +
+`BuildObjectTree`) and let ANY sequence of batches arrive, interleaved with ANY growth of the local
+ACL log (record ids staying distinct): in every state reached, each attached change is authentic
+and authorised with respect to the current log (the specification `permAt` is stable under log
+growth), and the changes collection holds exactly the attached ids. Holds for both shapes of
+`applyAccountsAdd`. -/
+theorem reachable_all_authentic (H : Nat → Id) (cw : Perm → Bool) (hcw : cw 0 = false) (keep : Bool)
+    (steps : List Step) (s : Sys) (hnd : (s.log.map (·.id)).Nodup) (hok : StepsOk s.log steps)
+    (hinv : AllAuthentic H cw s.log s.tree) :
+    AllAuthentic H cw (Sys.run H cw keep s steps).log (Sys.run H cw keep s steps).tree := by
+  induction steps generalizing s with
+  | nil => exact hinv
+  | cons st rest ih =>
+    simp only [Sys.run, List.foldl_cons]
+    cases st with
+    | add b =>
+      exact ih ⟨s.log, _⟩ hnd hok (add_preserves_allAuthentic H cw hcw keep s.log hnd s.tree b hinv)
+    | growAcl m =>
+      refine ih ⟨s.log ++ m, s.tree⟩ hok.1 hok.2 ⟨?_, hinv.2⟩
+      intro c hc
+      obtain ⟨raw, hr⟩ := hinv.1 c hc
+      exact ⟨raw, by simpa using authentic_mono hr [] m⟩
+
+/-- the initial state of `reachable_all_authentic`: a freshly opened tree satisfies the invariant -/
+theorem open_establishes_invariant (H : Nat → Id) (cw : Perm → Bool) (hcw : cw 0 = false) (keep : Bool)
+    (l : Log) (hnd : (l.map (·.id)).Nodup) (root : Raw) (t : TreeSt)
+    (h : openTree H cw keep l root = .ok t) : AllAuthentic H cw l t := by
+  obtain ⟨c, hatt, hst, hroot, hauth⟩ := open_implies_authentic_root H cw hcw keep l hnd root t h
+  refine ⟨?_, by rw [hst, hatt]; rfl⟩
+  intro d hd
+  rw [hatt] at hd ⊢
+  simp only [List.mem_singleton] at hd
+  subst hd
+  exact ⟨root, by rw [hroot]; exact hauth⟩
+
+/-- **whole-tree admission.** A tree offered as root + changes + claimed heads
+(`ValidateRawTreeDefault`, the path by which a tree received from a peer is admitted) is accepted
+only if every change of the resulting tree, the root included, is authentic and authorised — even
+though this path reads the root back unverified first and checks its permission before its
+content id and signature. -/
+theorem validateRawTree_implies_authentic (H : Nat → Id) (cw : Perm → Bool) (hcw : cw 0 = false) (keep : Bool)
+    (l : Log) (hnd : (l.map (·.id)).Nodup) (root : Raw) (changes : List Raw) (heads : List Id) (t : TreeSt)
+    (h : validateRawTree H cw keep l root changes heads = .ok t) : AllAuthentic H cw l t := by
+  unfold validateRawTree at h
+  split at h
+  · cases h
+  · rename_i c0 hc0
+    split at h
+    · cases h
+    · rename_i hv
+      split at h
+      · cases h
+      · rename_i c hu
+        have hcc : c0 = c := by
+          have := unmarshalNoVerify_of_unmarshal hu
+          rw [hc0] at this; cases this; rfl
+        subst hcc
+        have hcid : c0.id = root.id := by
+          obtain ⟨_, p, s, _, hc, _⟩ := unmarshal_ok hu; rw [hc]
+        have hinit : AllAuthentic H cw l ⟨root.id, [c0], [root.id], [root.id], [root.id]⟩ := by
+          refine ⟨?_, by simp [hcid]⟩
+          intro d hd
+          simp only [List.mem_singleton] at hd
+          subst hd
+          exact ⟨root, authentic_of_checks hcw hnd hu hv⟩
+        have hpres := add_preserves_allAuthentic H cw hcw keep l hnd _ changes hinit
+        split at h
+        · cases h
+        · cases h
+        · rename_i added t' hadd
+          rw [hadd] at hpres
+          split at h
+          · cases h
+          · split at h
+            · cases h
+            · cases h; exact hpres
+
 /-! ## non-vacuity: concrete runs of the model -/
 
 namespace Ex
